@@ -85,8 +85,8 @@ def propagate(data, d, medium_index=None, illum_wavelen=None, cfsp=0,
 
     # Computing the transfer function will fail for d = 0. So, if we
     # are asked to compute a reconstruction for a set of distances
-    # containing 0, we pull that distance out and then add in a copy
-    # of the input at the end.
+    # containing 0, we pull those distances out and then put a copy
+    # of the input back at each of their positions at the end.
     contains_zero = False
     if not np.isscalar(d):
         d = np.array(d)
@@ -110,7 +110,14 @@ def propagate(data, d, medium_index=None, illum_wavelen=None, cfsp=0,
 
     if contains_zero:
         d = d_old
-        res = xr.concat([data, res], dim='z')
+        is_zero = d == 0
+        n_zero = is_zero.sum()
+        res = xr.concat([data] * n_zero + [res], dim='z')
+        # return the slices in the order of the distances given
+        order = np.empty(len(d), dtype=int)
+        order[is_zero] = np.arange(n_zero)
+        order[~is_zero] = np.arange(n_zero, len(d))
+        res = res.isel(z=order)
 
     return copy_metadata(data, res)
 
